@@ -40,7 +40,7 @@ REAL_VS_STUB = {
     'stub': ['the initial key, the round schedule (cohorts, weights, leaf classes) and the retry/restart faults come from the simulator'],
 }
 AGGS = ['uniform', 'uniform_arith', 'rotated', 'drive', 'terngrad']
-LEAF_CLASSES = ['random', 'random', 'size1', 'constant', 'zero', 'ongrid', 'huge', 'half', 'offset']
+LEAF_CLASSES = ['random', 'random', 'size1', 'constant', 'zero', 'ongrid', 'huge', 'half', 'offset', 'tiny']
 
 
 def plan(tier):
@@ -59,7 +59,7 @@ def generate(seed, tier):
         'data_seed': g.randint(0, 2**30), 'ops': []}
   o = r.sub('ops')
   if g.chance(0.1) and sc['agg'] != 'drive':
-    sc['bias'] = {'rounds': plan(tier)['bias_rounds'], 'size': o.choice([1, 3, 8, 16]), 'cls': o.choice(['random', 'half', 'huge', 'offset'])}
+    sc['bias'] = {'rounds': plan(tier)['bias_rounds'], 'size': o.choice([1, 3, 8, 16]), 'cls': o.choice(['random', 'half', 'huge', 'offset', 'tiny'])}
     return sc
   if g.chance(0.09):
     n = o.choice([66, 130, 200, 260])
@@ -102,6 +102,9 @@ def _leaf(cls, size, levels, rs):
     if size > 1:
       v[1] = np.float32(1e-6)
     return v, 'huge'
+  if cls == 'tiny':       # whole leaf of order 1e-8: the value range is below float32 machine epsilon
+    v = (rs.uniform(-1, 1, size=(size,)) * 1e-8).astype(np.float32)
+    return v, 'tiny'
   if cls == 'offset':     # spread tiny compared with the mean (a bias vector around 3000 +- 1)
     return (np.float32(rs.choice([3000.0, -250.0])) + rs.uniform(-1, 1, size=(size,))).astype(np.float32), 'offset'
   if cls == 'half':
@@ -266,7 +269,7 @@ def execute(sc):
       act = [(t, w) for _, t, w in clients if w > 0] or [(clients[0][1], 0.0)]
       if name in ('uniform', 'uniform_arith'):
         bound = max((t[k].max() - t[k].min()) / (L - 1) for t, _ in act) if wsum > 0 else 0.0
-        tol = 1e-5 * max(1.0, float(np.max(np.abs(exact)))) + 1e-5 * bound
+        tol = 1e-5 * float(np.max(np.abs(exact))) + 1e-5 * bound + 1e-30
         if np.max(np.abs(o - exact)) > bound + tol:
           violation('Q3', f'Q3:aggregate-further-than-one-step-from-exact-weighted-mean:{name}',
                     f'{label}: leaf {k} max |agg-mean| {np.max(np.abs(o - exact))} > step bound {bound} (weights {[w for _, _, w in clients]})')
@@ -277,13 +280,13 @@ def execute(sc):
           return np.where(np.abs(v) > 2.5 * s_, 2.5 * s_ * np.sign(v), v)
         exactc = sum(w * clip(t[k]) for t, w in act) / wsum if wsum > 0 else exact
         bound = max(np.abs(clip(t[k])).max() for t, _ in act) if wsum > 0 else 0.0
-        if np.max(np.abs(o - exactc)) > bound * (1 + 1e-5) + 1e-6:
+        if np.max(np.abs(o - exactc)) > bound * (1 + 1e-5) + 1e-6 * max(bound, float(np.max(np.abs(exactc)))) + 1e-30:
           violation('Q3', 'Q3:aggregate-further-than-s-from-clipped-weighted-mean:terngrad', f'{label}: leaf {k}')
       elif name == 'rotated':
         size = clients[0][1][k].size
         dpad = 1 << max(0, (size - 1).bit_length())
         bound = max(2 * np.linalg.norm(t[k].astype(np.float64)) * math.sqrt(dpad) / (L - 1) for t, _ in act) if wsum > 0 else 0.0
-        if np.linalg.norm(o - exact) > bound * (1 + 1e-4) + 1e-5 * max(1.0, np.linalg.norm(exact)):
+        if np.linalg.norm(o - exact) > bound * (1 + 1e-4) + 1e-5 * np.linalg.norm(exact) + 1e-30:
           violation('Q3', 'Q3:aggregate-outside-norm-bound-of-exact-weighted-mean:rotated',
                     f'{label}: leaf {k} |agg-mean|={np.linalg.norm(o - exact)} bound {bound}')
 
@@ -316,7 +319,7 @@ def execute(sc):
     else:
       target = v64
       width = (v64.max() - v64.min()) / (L - 1)
-    radius = width * math.sqrt(math.log(2 * d / 1e-12) / (2 * R)) + 1e-5 * max(1.0, float(np.abs(v64).max()))
+    radius = width * math.sqrt(math.log(2 * d / 1e-12) / (2 * R)) + 1e-5 * float(np.abs(v64).max()) + 1e-30
     err = float(np.max(np.abs(mean - target)))
     if err > radius:
       violation('Q7', f'Q7:running-mean-outside-hoeffding-radius:{name}',
